@@ -120,6 +120,7 @@ Proof. intros nsc l H. cbn in H. inversion H; subst. reflexivity. Qed.
 Lemma case_acons a r : P_a a -> P_as r -> P_as (ACons a r).
 Proof.
   intros Ha Hr nsc l H. cbn [pu_as] in H.
+  destruct (existsb (N.eqb (aproto_name a)) (aproto_names r)); [exact (Hr _ _ H)|].
   destruct (pu_a nsc a) as [x|] eqn:E1; cbn [obind] in H; [|discriminate].
   destruct (pu_as nsc r) as [l'|] eqn:E2; cbn [obind] in H; [|discriminate].
   inversion H; subst. cbn [forallb]. rewrite (Ha _ _ E1), (Hr _ _ E2). reflexivity.
